@@ -251,4 +251,175 @@ theorem rowsQ_items (Q : Bytes → Bytes → Prop) (ps : List (List Bytes)) (h :
     obtain ⟨v, hv, rfl⟩ := hkv
     exact h (key :: vs) hrow v hv
 
+/-! ### items of one name consecutive: what `Props.Add` does not reorder -/
+
+/-- equal keys are consecutive: once a run of `k` is over, `k` does not come back -/
+def groupedKeys : List Bytes → Bool
+  | [] => true
+  | k :: ks => !((ks.dropWhile (· == k)).contains k) && groupedKeys ks
+
+/-- every row has a name, and the written items of one name are consecutive (rows of one name are
+adjacent; rows without a value do not count) -/
+def propsAdjacent (ps : List (List Bytes)) : Bool :=
+  propsOk ps && groupedKeys ((propsItems ps).map (·.1))
+
+theorem mem_of_mem_dropWhile' (p : Bytes → Bool) (l : List Bytes) (x : Bytes) (h : x ∈ l.dropWhile p) : x ∈ l :=
+  (List.dropWhile_sublist p).subset h
+
+theorem groupedKeys_suffix (a b : List Bytes) (h : groupedKeys (a ++ b) = true) : groupedKeys b = true := by
+  induction a with
+  | nil => exact h
+  | cons x a ih =>
+    simp only [List.cons_append, groupedKeys, Bool.and_eq_true] at h
+    exact ih h.2
+
+theorem dropWhile_keep (k h : Bytes) (hne : h ≠ k) (B C : List Bytes) :
+    ∃ D, (B ++ h :: C).dropWhile (· == k) = D ++ h :: C := by
+  induction B with
+  | nil =>
+    refine ⟨[], ?_⟩
+    have : (h == k) = false := by simpa using hne
+    simp [this]
+  | cons b B ih =>
+    by_cases hb : (b == k) = true
+    · obtain ⟨D, hD⟩ := ih
+      exact ⟨D, by simp [hb, hD]⟩
+    · exact ⟨b :: B, by simp [hb]⟩
+
+/-- once another key has been seen behind `k`, `k` does not come back -/
+theorem grouped_no_return (A B C : List Bytes) (k h : Bytes) (hne : h ≠ k)
+    (hg : groupedKeys (A ++ k :: (B ++ h :: C)) = true) : k ∉ C := by
+  have h1 := groupedKeys_suffix A _ hg
+  simp only [groupedKeys, Bool.and_eq_true, Bool.not_eq_true'] at h1
+  obtain ⟨D, hD⟩ := dropWhile_keep k h hne B C
+  intro hk
+  have : ((B ++ h :: C).dropWhile (· == k)).contains k = true := by
+    rw [hD]
+    exact List.contains_iff_mem.mpr (by simp [hk])
+  rw [this] at h1
+  exact absurd h1.1 (by simp)
+
+theorem dropWhile_replicate (k : Bytes) (n : Nat) (l : List Bytes) :
+    (List.replicate n k ++ l).dropWhile (· == k) = l.dropWhile (· == k) := by
+  induction n with
+  | zero => rfl
+  | succ n ih => simp [List.replicate_succ, ih]
+
+theorem grouped_replicate_append (k : Bytes) (n : Nat) (rest : List Bytes) (hr : groupedKeys rest = true)
+    (hk : k ∉ rest) : groupedKeys (List.replicate n k ++ rest) = true := by
+  induction n with
+  | zero => exact hr
+  | succ n ih =>
+    simp only [List.replicate_succ, List.cons_append, groupedKeys, Bool.and_eq_true, Bool.not_eq_true', ih, and_true]
+    rw [dropWhile_replicate]
+    cases hc : (rest.dropWhile (· == k)).contains k with
+    | false => rfl
+    | true => exact absurd (mem_of_mem_dropWhile' _ _ _ (List.contains_iff_mem.mp hc)) hk
+
+theorem rowItems_keys (row : List Bytes) :
+    (rowItems row).map (·.1) = List.replicate (row.length - 1) (row.headD []) := by
+  cases row with
+  | nil => rfl
+  | cons key vs => simp [rowItems, List.map_map, Function.comp_def, List.map_const']
+
+theorem mem_items_keys (ps : List (List Bytes)) (k : Bytes) (h : k ∈ (ps.flatMap rowItems).map (·.1)) :
+    k ∈ ps.map fun row => row.headD [] := by
+  simp only [List.map_flatMap, List.mem_flatMap] at h
+  obtain ⟨row, hrow, hk⟩ := h
+  rw [rowItems_keys] at hk
+  exact List.mem_map.mpr ⟨row, hrow, (List.eq_of_mem_replicate hk).symm⟩
+
+/-- distinct row names are the special case -/
+theorem propsAdjacent_of_distinct (ps : List (List Bytes)) (h : propsDistinct ps = true) :
+    propsAdjacent ps = true := by
+  simp only [propsDistinct, Bool.and_eq_true] at h
+  simp only [propsAdjacent, Bool.and_eq_true, h.1, true_and]
+  rw [propsItems_eq]
+  have hnd := (distinctB_nodup _).mp h.2
+  clear h
+  induction ps with
+  | nil => rfl
+  | cons row ps ih =>
+    simp only [List.map_cons, List.nodup_cons] at hnd
+    simp only [List.flatMap_cons, List.map_append, rowItems_keys]
+    exact grouped_replicate_append _ _ _ (ih hnd.2) (fun hk => hnd.1 (mem_items_keys ps _ hk))
+
+theorem propsItems_append (a b : List (List Bytes)) : propsItems (a ++ b) = propsItems a ++ propsItems b := by
+  simp [propsItems_eq, List.flatMap_append]
+
+/-- one `Props.Add` behind grouped items appends the item -/
+theorem propsItems_propsAdd (acc : List (List Bytes)) (k v : Bytes) (rest : List Bytes)
+    (hn : propsNorm acc = true)
+    (hg : groupedKeys ((propsItems acc).map (·.1) ++ k :: rest) = true) :
+    propsItems (propsAdd acc k v) = propsItems acc ++ [(k, v)] := by
+  by_cases hk : ∀ r ∈ acc, r.head? ≠ some k
+  · rw [propsAdd_new acc k v hk, propsItems_append]
+    simp [propsItems_eq, rowItems]
+  · have hne := propsOk_ne acc (propsNorm_ok acc hn)
+    simp only [propsNorm, Bool.and_eq_true, List.all_eq_true, decide_eq_true_eq] at hn
+    obtain ⟨hlen, hd⟩ := hn
+    rcases List.eq_nil_or_concat acc with hnil | ⟨init, last, hacc⟩
+    · subst hnil; exact absurd (fun r hr => by simp at hr) hk
+    · rw [List.concat_eq_append] at hacc
+      subst hacc
+      have hl2 := hlen last (by simp)
+      match last, hl2 with
+      | h :: w :: ws, _ =>
+        have hinit : ∀ r ∈ init, r.head? ≠ some h :=
+          distinct_heads init (h :: w :: ws) [] h (w :: ws) rfl hd (fun r hr => hne r (by simp [hr]))
+        by_cases hhk : h = k
+        · subst hhk
+          rw [propsAdd_last init h v (w :: ws) hinit, propsItems_append, propsItems_append]
+          simp [propsItems_eq, rowItems, List.append_assoc]
+        · exfalso
+          -- the row named `k` is in `init`; behind its items come the items of the last row, named `h`
+          have hex : ∃ r ∈ init, r.head? = some k := by
+            apply Classical.byContradiction
+            intro hno
+            apply hk
+            intro r hr
+            rcases List.mem_append.mp hr with hr | hr
+            · exact fun e => hno ⟨r, hr, e⟩
+            · simp only [List.mem_singleton] at hr
+              subst hr
+              simpa using hhk
+          obtain ⟨r, hr, hrk⟩ := hex
+          have hr2 := hlen r (by simp [hr])
+          match r, hr2, hrk with
+          | k' :: w' :: ws', _, hrk =>
+            simp only [List.head?_cons, Option.some.injEq] at hrk
+            subst hrk
+            have hmem : k' ∈ (propsItems init).map (·.1) := by
+              rw [propsItems_eq]
+              apply List.mem_map.mpr
+              exact ⟨(k', w'), List.mem_flatMap.mpr ⟨_, hr, by simp [rowItems]⟩, rfl⟩
+            obtain ⟨A, B, hAB⟩ := List.append_of_mem hmem
+            have hlast : (propsItems [h :: w :: ws]).map (·.1) = h :: List.replicate ws.length h := by
+              simp [propsItems_eq, rowItems, Function.comp_def, List.map_const']
+            rw [propsItems_append, List.map_append, hAB, hlast] at hg
+            have e : (A ++ k' :: B) ++ (h :: List.replicate ws.length h) ++ k' :: rest =
+                A ++ k' :: (B ++ h :: (List.replicate ws.length h ++ k' :: rest)) := by
+              simp [List.append_assoc]
+            rw [e] at hg
+            exact grouped_no_return A B _ k' h hhk hg (by simp)
+
+/-- **`Props.Add` does not reorder grouped items**: the items of what the reader builds from items
+whose equal names are consecutive are those items, in their order -/
+theorem propsItems_propsOfItems (qs : List (Bytes × Bytes)) (hg : groupedKeys (qs.map (·.1)) = true) :
+    propsItems (propsOfItems qs) = qs := by
+  unfold propsOfItems
+  suffices hs : ∀ acc, propsNorm acc = true → groupedKeys ((propsItems acc ++ qs).map (·.1)) = true →
+      propsItems (qs.foldl (fun ps q => propsAdd ps q.1 q.2) acc) = propsItems acc ++ qs by
+    have := hs [] (by simp [propsNorm, distinctB]) (by simpa [propsItems] using hg)
+    simpa [propsItems] using this
+  clear hg
+  induction qs with
+  | nil => intro acc _ _; simp
+  | cons q qs ih =>
+    intro acc hn hg
+    simp only [List.foldl_cons]
+    have hstep := propsItems_propsAdd acc q.1 q.2 (qs.map (·.1)) hn (by simpa using hg)
+    rw [ih _ (propsAdd_norm acc q.1 q.2 hn) (by rw [hstep]; simpa [List.append_assoc] using hg), hstep]
+    simp [List.append_assoc]
+
 end Gts.GenBank
